@@ -13,7 +13,8 @@ inductive Err
   | badFlag       -- "invalid end flag" / "unexpected end flag"
   | authFail      -- AES-GCM open failed / too short for tag / IV / empty encrypted data
   | counterMax    -- "hit maximum number of packets per connection"
-  | eof           -- wire exhausted / premature end of message
+  | eof           -- wire exhausted (connection EOF)
+  | eom           -- io.EOF: the current message has no more bytes
   | state         -- API misuse (write after EOM, no message being read, ...)
   | notConsumed   -- EndMessageRead with bytes left
   | sizeExceeded  -- capped reader
@@ -25,7 +26,7 @@ inductive Err
 
 def Err.name : Err → String
   | .tooLarge => "tooLarge" | .badFlag => "badFlag" | .authFail => "authFail"
-  | .counterMax => "counterMax" | .eof => "eof" | .state => "state"
+  | .counterMax => "counterMax" | .eof => "eof" | .eom => "eom" | .state => "state"
   | .notConsumed => "notConsumed" | .sizeExceeded => "sizeExceeded"
   | .malformed => "malformed" | .refused => "refused" | .plainOnKeyed => "plainOnKeyed"
   | .panic => "panic"
@@ -53,6 +54,19 @@ def toI32 (i : Int) : Int :=
   if m < 2^31 then (m : Int) else (m : Int) - (2^32 : Int)
 /-- low 32 bits read as unsigned (Go uint32(x)) -/
 def toU32 (i : Int) : Nat := (i % (2^32 : Int)).toNat
+
+/-- `l.length ≥ n` without walking the whole list (the oracle runs on megabyte buffers) -/
+def lenGe {α : Type} : List α → Nat → Bool
+  | _, 0 => true
+  | [], _ + 1 => false
+  | _ :: t, n + 1 => lenGe t n
+
+theorem lenGe_iff {α : Type} (l : List α) (n : Nat) : lenGe l n = true ↔ l.length ≥ n := by
+  induction l generalizing n with
+  | nil => cases n <;> simp [lenGe]
+  | cons a t ih => cases n with
+    | zero => simp [lenGe]
+    | succ n => simp [lenGe, ih]
 
 def hexDigit (n : Nat) : Char :=
   if n < 10 then Char.ofNat (48 + n) else Char.ofNat (87 + n)
